@@ -209,8 +209,9 @@ func init() {
 }
 
 // compareWithGolden reports cells whose verdict differs from the reference table.
-//   mode "admit": newly admitted cells (ill-formed programs accepted) are violations
-//   mode "result": changed result types of admitted cells are violations
+//
+//	mode "admit": newly admitted cells (ill-formed programs accepted) are violations
+//	mode "result": changed result types of admitted cells are violations
 func compareWithGolden(c *Check, r *Rule, lines []string, filter func(key string) bool, modes map[string]bool) {
 	gold, err := readGolden(c.Tier)
 	if err != nil {
